@@ -398,6 +398,8 @@ def to_z3(v):
         return pm.bytes_lit(v)
     if isinstance(v, Msg):
         return v.pack()
+    if hasattr(v, 'term') and z3.is_expr(getattr(v, 'term')):
+        return v.term
     raise Unsupported('to_z3 of %r' % (v,))
 
 
@@ -1308,6 +1310,7 @@ class Interp:
         ctx = LoopCtx()
         ctx.iter = it
         ctx.entry_env = dict(fr.env)
+        ctx.entry_vals = {k: models.snapshot(v) for k, v in fr.env.items()}
         ctx.entry_ghost = dict(run.ghost)
         is_for = isinstance(s, ast.For)
         if is_for:
